@@ -48,3 +48,10 @@ Theorem C04_peer_traffic_to_owner_only : forall cfg s relay from d s' acts x,
     ((exists n, x = ChanDataOut (a_client a) n d) \/ x = DataInd (a_client a) from d).
 Proof. exact peer_traffic_to_owner_only. Qed.
 Print Assumptions C04_peer_traffic_to_owner_only.
+
+(* ---------- history level ---------- *)
+From Turn Require Import Common RelayCheck RelayProps RelayTrace RelayTime RelayTime7 RelayTrace2.
+(* the predicate evaluated on the implementation's observed traces (chk_C04) holds on every trace of the model *)
+Theorem C04_predicate_holds_on_every_model_trace : forall cfg ep h, chk_C04 (model_case cfg ep h) = true.
+Proof. exact chk_C04_model. Qed.
+Print Assumptions C04_predicate_holds_on_every_model_trace.
